@@ -379,12 +379,19 @@ def r_addpoint(ctx):
     ctx.ob("R-PRUNED", "Function.add_point::weights pruned", okp, "zero weights are removed before the terms are classified" if okp else
            "the weights of a composite are not pruned before the need classification", loc(fn, comp[0]))
     # remainder: unroll the distribution loop for n = 1..3 terms
-    dist = [l for l in flow.stmts_of_block(comp[0]) if isinstance(l, ast.For) and isinstance(l.target, ast.Tuple) and isinstance(l.iter, ast.BinOp)]
+    from ..model import iter_base
+    dist = []
+    for l in flow.stmts_of_block(comp[0]):
+        if isinstance(l, ast.For):
+            base, enum = iter_base(l.iter)
+            tg = l.target.elts[1] if enum and isinstance(l.target, ast.Tuple) and len(l.target.elts) == 2 else l.target
+            if isinstance(base, ast.BinOp) and isinstance(tg, ast.Tuple) and len(tg.elts) == 2 and all(isinstance(e, ast.Name) for e in tg.elts):
+                dist.append((l, tg, l.target.elts[0].id if enum and isinstance(l.target.elts[0], ast.Name) else None))
     if len(dist) != 1:
         ctx.ob("R-WSUM", "Function.add_point::remainder loop", False, "distribution loop over need-nothing + need-something not found", loc(fn, comp[0]))
         return
-    lp = dist[0]
-    fvar, wvar = [e.id for e in lp.target.elts]
+    lp, tg, posvar = dist[0]
+    fvar, wvar = [e.id for e in tg.elts]
     # initial values of the running remainder and the counter / total
     pre = {}
     for s in flow.stmts_of_block(comp[0]):
@@ -395,14 +402,27 @@ def r_addpoint(ctx):
         samples = []
         try:
             ints = {}
+
+            def int_of(val):
+                if isinstance(val, ast.Constant) and isinstance(val.value, int) and not isinstance(val.value, bool):
+                    return val.value
+                if isinstance(val, ast.Call) and call_name(val) == "len":
+                    return n
+                if isinstance(val, ast.BinOp) and isinstance(val.op, (ast.Add, ast.Sub)):
+                    a, b = int_of(val.left), int_of(val.right)
+                    if a is not None and b is not None:
+                        return a + b if isinstance(val.op, ast.Add) else a - b
+                return None
             for name, val in pre.items():
                 if dotted(val) in (g, f):
                     env[name] = env[dotted(val)]
-                elif is_const(val, 0):
-                    ints[name] = 0
-                elif isinstance(val, ast.Call) and call_name(val) == "len":
-                    ints[name] = n
+                else:
+                    iv0 = int_of(val)
+                    if iv0 is not None:
+                        ints[name] = iv0
             for i in range(n):
+                if posvar:
+                    ints[posvar] = i
                 env[wvar] = Rat.sym("w%d" % (i + 1))
                 _rem_body(lp.body, env, ints, fvar, i + 1, samples, p)
         except (AnalysisError, SortError, KeyError) as e:
